@@ -159,6 +159,11 @@ func c18cases(tier string) []c18case {
 		{[]string{"sample"}, []string{"wthr"}, []c18flow{{From: 0, To: 1, Kind: "start"}, {From: 1, To: 0, Kind: "catch"}}},
 		{[]string{"sample", "task"}, []string{"wthr", "wtriv"}, []c18flow{{From: 0, To: 2, Kind: "start"}, {From: 2, To: 0, Kind: "catch"}}},
 		{[]string{"thr1"}, []string{"wtask"}, nil}, // a throw event without a message flow
+		// a message flow whose throw event may not be reached at all (it sits on a conditional branch): the set is complete
+		// when its started processes are, whether or not the waiting process was ever instantiated
+		{[]string{"xthr"}, []string{"wtask"}, []c18flow{{From: 0, To: 1, Kind: "start"}}},
+		{[]string{"xthr", "task"}, []string{"wtask"}, []c18flow{{From: 0, To: 2, Kind: "start"}}},
+		{[]string{"xthr", "cat"}, nil, []c18flow{{From: 0, To: 1, Kind: "catch"}}},
 		// one throw event passed by two tokens: two throws, two instances of the waiting process
 		{[]string{"thrtwo"}, []string{"wtask"}, []c18flow{{From: 0, To: 1, Kind: "start"}}},
 		{[]string{"thrtwo"}, nil, nil},
@@ -303,6 +308,17 @@ func c18graph(id, shape string, executable bool) *eng.Graph {
 		chain(st, task("A"), throw(), task("B"), throwN("h2"), task("C"), en)
 	case "cat2": // two catch events in sequence, each woken by its own message flow
 		chain(st, catch(), catchN("c2"), task("A"), en)
+	case "xthr": // the throw event sits on a CONDITIONAL branch: with v != 1 the token never reaches it
+		a := task("A", "v")
+		x := g.Add("exclusiveGateway", "x", "")
+		h := throw()
+		b, c := task("B"), task("C")
+		chain(st, a, x)
+		g.Connect(x, h, &eng.Cond{Op: "eq", Var: "v", K: 1})
+		d := g.Connect(x, c, nil)
+		x.Default = d.ID
+		chain(h, b, en)
+		chain(c, en)
 	case "wv": // writes the variable v (a declared result of its task)
 		chain(st, task("A", "v"), en)
 	case "rv": // READS a variable v it never writes: alone v is undefined and the default branch is taken
